@@ -80,6 +80,8 @@ class Built:
         if self.cfg.get('mainmod'):
             return sys.modules['__main__'].MainT
         y = self.cfg['typ'][t - 1]
+        if self.cfg.get('prefixnames') and y == 2:
+            return U.TYPES[('1x', None, 1)]          # type 2's name has type 1's name as a prefix
         mp = self.cfg['maxpar'][y - 1]
         fmt = (self.cfg.get('tfmt') or ['pickle'] * 9)[y - 1]
         c = 0 if not self.cfg['tcache'][y - 1] else (2 if fmt == 'json' else 1)
